@@ -119,6 +119,9 @@ pub enum HttpError {
 	Stream(#[from] BoxError),
 }
 
+/// The first non-whitespace byte of a HTTP body must be found among this many leading bytes of the body.
+const SNIFF_WINDOW: usize = 128;
+
 /// Read data from a HTTP body and return the data if it is valid JSON and within the allowed size range.
 ///
 /// Returns `Ok((bytes, single))` if the body was in valid size range; and a bool indicating whether the JSON-RPC
@@ -145,6 +148,9 @@ where
 	let mut limited_body = Limited::new(body, max_body_size as usize);
 
 	let mut is_single = None;
+	// Number of leading whitespace bytes skipped so far. How the body is split into frames is up to the
+	// transport, so the window in which the first non-whitespace byte must show up spans the frames.
+	let mut sniffed = 0;
 
 	while let Some(frame_or_err) = limited_body.frame().await {
 		let frame = frame_or_err.map_err(HttpError::Stream)?;
@@ -152,10 +158,14 @@ where
 			continue;
 		};
 
-		// If it's the first chunk, trim the whitespaces to determine whether it's valid JSON-RPC call.
-		if received_data.is_empty() {
-			let first_non_whitespace =
-				data.chunk().iter().enumerate().take(128).find(|(_, byte)| !byte.is_ascii_whitespace());
+		// Until the first non-whitespace byte is found, trim the whitespaces to determine whether it's valid JSON-RPC call.
+		if is_single.is_none() {
+			let first_non_whitespace = data
+				.chunk()
+				.iter()
+				.enumerate()
+				.take(SNIFF_WINDOW - sniffed)
+				.find(|(_, byte)| !byte.is_ascii_whitespace());
 
 			let skip = match first_non_whitespace {
 				Some((idx, b'{')) => {
@@ -165,6 +175,11 @@ where
 				Some((idx, b'[')) => {
 					is_single = Some(false);
 					idx
+				}
+				// Only whitespace so far (or an empty frame) and the window is not exhausted, look at the next frame.
+				None if sniffed + data.chunk().len() < SNIFF_WINDOW => {
+					sniffed += data.chunk().len();
+					continue;
 				}
 				_ => return Err(HttpError::Malformed),
 			};
